@@ -70,6 +70,75 @@ func rootsFor(prop, tier string) []Root {
 			add("VH_C12_DateTime2", dec)
 			add("VH_C12_Time2", dec)
 		}
+	case "C13":
+		for _, t := range []int{15, 253, 254, 249, 250, 251, 252, 255} {
+			add("VH_C13_Str", t, 40)
+			add("VH_C13_Str", t, 300)
+			if thorough {
+				add("VH_C13_Str", t, 1200)
+			}
+		}
+	case "C09":
+		for _, t := range []int{1, 2, 3, 4, 5, 7, 8, 9, 10, 11, 12, 13, 14, 15, 16, 17, 18, 19, 245, 247, 248, 249, 250, 251, 252, 253, 254, 255} {
+			add("VH_C09_LenAgree", t)
+		}
+		for kind := 0; kind < 3; kind++ {
+			for _, ver := range []int{1, 2} {
+				for _, w := range []int{4, 6} {
+					if ver == 2 && w == 4 {
+						continue // 4-byte table ids predate v2 row events (MySQL < 5.1.4): not a real configuration
+					}
+					if !thorough && ver == 1 && w == 6 {
+						continue
+					}
+					shapes := []int{0, 4}
+					if thorough {
+						shapes = []int{0, 1, 2, 3, 4, 5}
+					}
+					for _, sh := range shapes {
+						ex := 0
+						if ver == 2 && w == 6 {
+							ex = 5
+						}
+						rs = append(rs, Root{Prop: prop, Harness: "VH_C09_Rows", Params: []int{kind, ver, w, sh, ex}, MaxDecs: 4000})
+					}
+				}
+			}
+		}
+		if !thorough {
+			rs = append(rs, Root{Prop: prop, Harness: "VH_C09_Rows", Params: []int{1, 2, 6, 1, 3}, MaxDecs: 4000})
+			rs = append(rs, Root{Prop: prop, Harness: "VH_C09_Rows", Params: []int{0, 2, 6, 2, 0}, MaxDecs: 4000})
+			rs = append(rs, Root{Prop: prop, Harness: "VH_C09_Rows", Params: []int{2, 1, 6, 3, 0}, MaxDecs: 4000})
+			rs = append(rs, Root{Prop: prop, Harness: "VH_C09_Rows", Params: []int{1, 1, 4, 5, 0}, MaxDecs: 4000})
+		}
+		// NEWDECIMAL: length agreement is part of the C11 harness (concrete (p,s), symbolic bytes)
+		for p := 1; p <= 65; p++ {
+			for sc := 0; sc <= p && sc <= 30; sc++ {
+				if !thorough {
+					pe := p == 1 || p == 9 || p == 10 || p == 18 || p == 19 || p == 28 || p == 65
+					se := sc == 0 || sc == 1 || sc == 9 || sc == 10 || sc == p || sc == 30
+					if !(pe && se) {
+						continue
+					}
+				}
+				add("VH_C11_Decimal", p, sc)
+			}
+		}
+	case "C15":
+		for _, w := range []int{4, 6} {
+			add("VH_C15_TableMap", w, 1, 1, 1, 0)
+			add("VH_C15_TableMap", w, 2, 3, 5, 0)
+			add("VH_C15_TableMap", w, 2, 0, 1, 3)
+			add("VH_C15_TableMap", w, 1, 255, 255, 8)
+			for _, n := range []int{250, 251, 252} {
+				add("VH_C15_TableMapWide", w, n)
+			}
+			if thorough {
+				add("VH_C15_TableMap", w, 3, 2, 2, 1)
+				add("VH_C15_TableMapWide", w, 300)
+				add("VH_C15_TableMapWide", w, 600)
+			}
+		}
 	case "C17":
 		hi := 64
 		if thorough {
